@@ -27,6 +27,7 @@ type GenOpts struct {
 	// label for which it returns true (known finding directive-arg-keyword).
 	KeywordLike      func(token string) bool
 	NoNegativeOffset bool // $GENERATE modifiers only with offsets >= 0
+	FixedOptions     bool // parser options as NewRR documents them: origin ".", default TTL 3600
 	OnlyGenerate     bool // mostly $GENERATE items (plus $ORIGIN / $TTL and a few records)
 	IncludeHeavy     bool // many $INCLUDE items, chains up to the depth limit
 }
@@ -592,6 +593,12 @@ func GenZone(t *rapid.T, o GenOpts) *Zone {
 	if g.p(55, "defttl") {
 		z.HasDefTTL, z.DefTTL = true, g.ttl()
 		st.DefTTL = u32p(z.DefTTL)
+	}
+	if o.FixedOptions {
+		z.HasOrigin, z.Origin = true, [][]byte{}
+		st.Origin = namep(wm.Name{})
+		z.HasDefTTL, z.DefTTL = true, 3600
+		st.DefTTL = u32p(3600)
 	}
 	z.Items = g.items(st, 0, o.MaxItems)
 	if len(o.LastOnlySamples) > 0 || len(o.BanSamples) > 0 {
